@@ -37,6 +37,9 @@ def gen_decl(rnd, k, opts=None):
     # (a requested field type is a struct value: with goroutines and an error result the injector has to return the zero
     # value of a type that has no nil - the repaired KF-C04-2)
     nf = rnd.choice([1, 2, 3]) if structnode is not None else 0
+    # a second expansion whose struct is a FIELD of the first one (NewGraph's second pass has to put it back when it is
+    # listed first); its own field G0 is what consumers ask for
+    nested = structnode is not None and opts.get("nested", rnd.random() < 0.3)
     nargs = rnd.choice([0, 0, 1, 2, 3])
     # multi-value: node i also returns X_i, consumed by an earlier node (or by nobody)
     second = {}
@@ -83,6 +86,10 @@ def gen_decl(rnd, k, opts=None):
             out = ["%sF%d" % (P, f) for f in ch]
             if rnd.random() < 0.2:
                 out.append("*%sSt" % P)
+            if nested and rnd.random() < 0.6:
+                out.append("%sG0" % P)
+                if rnd.random() < 0.3:
+                    out.append("*%sSt2" % P)
             return out
         if j in binds2 and rnd.random() < 0.4:
             return ["%sIF%db" % (P, j)]
@@ -137,12 +144,18 @@ def gen_decl(rnd, k, opts=None):
         if sp["wrap"] == "async":
             sp["async"] = True
         flat.insert(rnd.randrange(len(flat) + 1), sp)
+        if nested:
+            sp["fields"] = sorted(sp["fields"] + [["FldN", "*%sSt2" % P]])
+            sp2 = dict(kind="struct", type="*%sSt2" % P, fields=[["FldQ", "%sG0" % P]], requires=["*%sSt2" % P], provides=[["*%sSt2" % P]],
+                       fallible=False, fn=None, node=None, wrap=rnd.choice(["plain", "plain", "async"]), **{"async": False})
+            sp2["async"] = sp2["wrap"] == "async"
+            flat.insert(rnd.randrange(len(flat) + 1), sp2)
     ret = T(0) if structnode != 0 else "%sF0" % P
     if opts.get("ret_is_arg") or (n == 1 and rnd.random() < 0.05):
         ret = "%sA9" % P        # nobody supplies it: the injector just returns its argument (fix F5)
     layout = make_layout(rnd, len(flat), P)
     d = dict(name="Init" + P, prefix=P, ret=ret, provs=flat, layout=layout, kind="valid",
-             meta=dict(n=n, nargs=nargs, nf=nf, structnode=structnode, second=sorted(second), binds=sorted(binds), values=sorted(values)))
+             meta=dict(n=n, nargs=nargs, nf=nf, structnode=structnode, nested=bool(nested), second=sorted(second), binds=sorted(binds), values=sorted(values)))
     return d
 
 
@@ -531,16 +544,56 @@ def supplier_map(d):
                         return None, ("dup", t)
                     continue
                 m[t] = (i, gi)
-    for i, p in enumerate(d["provs"]):
-        if p["kind"] != "struct":
-            continue
+    order, err = struct_expansion(d, m)
+    if err:
+        return None, err
+    return m, None
+
+
+def struct_expansion(d, m):
+    """Second pass of NewGraph on the map m of the first pass (extended in place): Struct expansions in declaration order,
+    an expansion whose source is a field of a struct still waiting being put back behind the others (at most once per
+    waiting struct between two successes). Returns (indexes of the struct providers in expansion order, error)."""
+    pending = [i for i, p in enumerate(d["provs"]) if p["kind"] == "struct"]
+    order = []
+    deferred = 0
+    while pending:
+        i = pending.pop(0)
+        p = d["provs"][i]
         if p["type"] not in m:
+            if any(ft == p["type"] for j in pending for (_fn, ft) in d["provs"][j]["fields"]) and deferred <= len(pending):
+                deferred += 1
+                pending.append(i)
+                continue
             return None, ("orphan", p["type"])
+        deferred = 0
         for (fname, ftype) in p["fields"]:
             if ftype in m:
                 return None, ("dup", ftype)
             m[ftype] = (("field", i, fname), 0)
-    return m, None
+        order.append(i)
+    return order, None
+
+
+def field_index(d):
+    """(struct provider index, field name) -> index of the synthetic field provider, numbered as NewGraph numbers them:
+    behind the declared providers, struct by struct in EXPANSION order, field by field. None for refused declarations."""
+    m = {}
+    for i, p in enumerate(d["provs"]):
+        if p["kind"] != "struct":
+            for g in p["provides"]:
+                for t in g:
+                    m.setdefault(t, (i, 0))
+    order, err = struct_expansion(d, m)
+    if err:
+        return None
+    fidx = {}
+    n = len(d["provs"])
+    for i in order:
+        for (fname, ftype) in d["provs"][i]["fields"]:
+            fidx[(i, fname)] = n
+            n += 1
+    return fidx
 
 
 def requires_of(d, key):
@@ -591,8 +644,8 @@ def ancestors(d, a):
             for t in p["requires"]:
                 if t in m:
                     s = m[t][0]
-                    if isinstance(s, tuple):
-                        # field of struct provided by ...
+                    while isinstance(s, tuple):
+                        # field of struct provided by ... (possibly itself a field of another expanded struct)
                         st = d["provs"][s[1]]["type"]
                         s = m[st][0] if st in m else None
                     if s == a or s in out:
@@ -635,13 +688,7 @@ def tree_str(d, tr):
 def tree_sval(d, tr, tt):
     """Gallina term of type Spec.sval; field providers are numbered as Gen.pass2 numbers them: after the declared
     providers, struct by struct in declaration order, field by field."""
-    fidx = {}
-    n = len(d["provs"])
-    for i, p in enumerate(d["provs"]):
-        if p["kind"] == "struct":
-            for (fname, ftype) in p["fields"]:
-                fidx[(i, fname)] = n
-                n += 1
+    fidx = field_index(d)
     def go(tr):
         if tr[0] == "arg":
             return "SArgT %d%%N" % tt[tr[1]]
@@ -793,6 +840,20 @@ def is_variadic(p):
     return bool(p.get("variadic") and p["requires"] and p["requires"][-1].startswith("[]"))
 
 
+def struct_literal(d, sp, term):
+    """&St{...}: the value of an expanded struct whose own term is the Go expression term; a field's term is <term>.<Field>,
+    a field that is itself an expanded struct is built the same way"""
+    parts = []
+    for (fname, ftype) in sp["fields"]:
+        fterm = "%s + \".%s\"" % (term, fname)
+        inner = [q for q in d["provs"] if q["kind"] == "struct" and q["type"] == ftype]
+        if inner:
+            parts.append("%s: %s" % (fname, struct_literal(d, inner[0], fterm)))
+        else:
+            parts.append("%s: %s{S: %s}" % (fname, ftype, fterm))
+    return "&%s{%s, s: %s}" % (sp["type"].lstrip("*"), ", ".join(parts), term)
+
+
 def render_provider(d, i, p):
     """Go source of an instrumented provider function"""
     P = d["prefix"]
@@ -829,8 +890,7 @@ def render_provider(d, i, p):
         elif base == P + "Rch":
             vals.append("func() %s { c := make(%s, 1); c <- h.Term(%d); return c }()" % (base, base, gi))
         elif sp:
-            flds = ", ".join("%s: %s{S: h.Term(%d) + \".%s\"}" % (f[0], f[1], gi, f[0]) for f in sp[0]["fields"])
-            vals.append("&%s{%s, s: h.Term(%d)}" % (base, flds, gi))
+            vals.append(struct_literal(d, sp[0], "h.Term(%d)" % gi))
         elif base.startswith(P + "St") or base.startswith(P + "OSt"):
             vals.append("&%s{s: h.Term(%d)}" % (base, gi))
         else:
